@@ -239,7 +239,7 @@ func c10Scenarios() []*HsScenario {
 		}
 	}
 	// (b) stale packets of an earlier connection, every type, either direction
-	stale := []string{"0114", "0107", "06", "0200010055", "0203010055", "0300", "0402", "05", "ff", "02"}
+	stale := []string{"0114", "0107", "06", "0200010055", "0203010055", "0300", "0402", "05", "ff", "02", "0100", "01ff"}
 	for _, a := range stale {
 		add(&HsScenario{N: 20, Stale: [2][]string{{a}, nil}, Retry: true})
 		add(&HsScenario{N: 20, Stale: [2][]string{nil, {a}}, Retry: true})
@@ -254,6 +254,11 @@ func c10Scenarios() []*HsScenario {
 				}
 			}
 		}
+	}
+	// a re-SYN with an unrepresentable window while the server waits for the SYNACK, then a SYNACK
+	for _, bad := range []string{"0100", "01ff"} {
+		add(&HsScenario{N: 20, Stale: [2][]string{{"0114", bad, "06"}, nil}, Retry: true})
+		add(&HsScenario{N: 20, Stale: [2][]string{{"0107", "0114", bad, "06"}, nil}, Retry: true})
 	}
 	// the model's counterexample to unconditional agreement
 	add(&HsScenario{N: 3, Stale: [2][]string{{"0107", "06"}, {"0103"}}})
